@@ -164,7 +164,7 @@ CLAIMS = {
              "new/add_observation (field ownership over all MIR bodies), exactly one `+= 1` on the found branch with the index returned by "
              "self.grid.index_of(observation), nothing written or called on the reject path, counts = zeros(grid.shape()) of the stored "
              "grid, matrix form inserts each row of axis 0 once and ignores rejects, coordinate j paired with projection j after an arity "
-             "assert; the lookup itself is the left-closed/right-open decision tree for every edge-set size incl. 0 and 1 (R20), so a miss is a "
+             "assert; the lookup itself is the left-closed/right-open decision tree for every edge-set size incl. 0 and 1 (R20) over edges that are strictly increasing by construction (R11, the lookup's premise), so a miss is a "
              "quiet None. Order independence follows from commuting increments."
              " Result integrity (R30): what each routine hands back is the value its verified core computed – on every success path, with nothing applied afterwards, and reached for every argument in the property's range (guard direction R31, termination of the cursor loops R32 where applicable); see DESIGN §7.x for the mutation sweeps that motivated these clauses.",
         design_ref="DESIGN.md §4 C11",
@@ -176,7 +176,7 @@ CLAIMS = {
         text="Static check that (a) every Edges value is sorted+deduplicated by construction and immutable afterwards (constructor "
              "dominance, private fields, no &mut self methods, single construction sites), (b) all accessors of Edges/Bins/Grid go through "
              "the one binary-search primitive, Bins::len arms are 0→0, n→n−1, and (c) the decision tree of Edges::indices_of extracted "
-             "from MIR equals the left-closed/right-open table on every (variant, index, n≤8) case. Trusts std's binary_search contract."
+             "from MIR equals the left-closed/right-open table on every (variant, index, n≤8) case; (d) no raw-buffer or memory-order API in the constructors/accessors (R1 scoped to bins.rs and grid.rs: the logical elements of an array argument are what is stored). Trusts std's binary_search contract."
              " Result integrity (R30): what each routine hands back is the value its verified core computed – on every success path, with nothing applied afterwards, and reached for every argument in the property's range (guard direction R31, termination of the cursor loops R32 where applicable); see DESIGN §7.x for the mutation sweeps that motivated these clauses.",
         design_ref="DESIGN.md §4 C13",
         note=NOTE_BASE,
@@ -235,7 +235,7 @@ CLAIMS = {
         text="Static check of the strategy-built bins: n_bins() and build() of the shared EquiSpaced builder use the same edge formula "
              "operation for operation (extracted from MIR as functions of their loop counters), build iterates 0..=n_bins(), edge(0)=min, "
              "equal widths (CAS); every builder is constructed under the guard width>0 ∧ min<max; strategies pass a.min()/a.max() in order "
-             "and delegate; error rows; every generic division of the constructors has a divisor ≥ 1 by interval evaluation over len(a) ≥ 1 (R33: no integer division by zero where Err(Strategy) is promised). With the loop's exit test `edge(n) <= max` and the +1 counter this gives, in exact arithmetic, "
+             "and delegate; error rows; every generic division of the constructors has a divisor ≥ 1 by interval evaluation over len(a) ≥ 1 (R33: no integer division by zero where Err(Strategy) is promised). The closing clause (a histogram over the built grid counts all n observations) rests on the accounting structure of Histogram, checked here too (R16/R11 as in C11). With the loop's exit test `edge(n) <= max` and the +1 counter this gives, in exact arithmetic, "
              "last edge > max and ≤ max + width. Necessary conditions of the property; float rounding of the edges and termination for "
              "widths below one ulp are not decided."
              " Result integrity (R30): what each routine hands back is the value its verified core computed – on every success path, with nothing applied afterwards, and reached for every argument in the property's range (guard direction R31, termination of the cursor loops R32 where applicable); see DESIGN §7.x for the mutation sweeps that motivated these clauses.",
